@@ -397,6 +397,9 @@ def handle (op : String) (j : Json) : Option (Except String Json) :=
     let lines := Blt.dumpBlt d
     pure (Json.mkObj [("lines", Json.arr (lines.map lineJson).toArray),
       ("loaded", resJson docJson (Blt.loadBlt lines)), ("wf", Json.bool (Blt.WFdoc d))])
+  | "blt_clean" => some do
+    let line ← j.getObjValAs? String "line"
+    pure (Json.mkObj [("clean", Json.str (Blt.cleanLine line))])
   | "blt_load" => some do
     let ls ← (← j.getObjVal? "lines").getArr?
     let lines ← ls.toList.mapM lineOfJson
